@@ -156,7 +156,11 @@ def calculate_time_slot(
 
     time_slot_size = service_interval / total_runners
     runner_start_time = runner_position * time_slot_size
-    runner_end_time = runner_start_time + time_slot_size - spread_margin
+    # End at the next runner's start minus the margin. Computing it as
+    # start + slot - margin rounds differently from the next runner's
+    # (position + 1) * slot, so adjacent windows could overlap by one ulp
+    # when the margin is (close to) zero.
+    runner_end_time = (runner_position + 1) * time_slot_size - spread_margin
 
     # Ensure the window is valid
     if runner_end_time <= runner_start_time:
